@@ -18,6 +18,7 @@ pub fn token() -> BoxedStrategy<String> {
         30 => (0u8..4).prop_map(|n| n.to_string()),
         6 => prop::sample::select(vec!["00", "01", "10", "9", "99", "100", "007"]).prop_map(String::from),
         6 => (1usize..=18, any::<u64>(), any::<u64>()).prop_map(|(l, a, b)| digits(l, a, b)),
+        2 => prop::sample::select(vec!["4294967295", "4294967296", "2147483647", "2147483648", "65536", "20240101120000", "20230101120000", "999999999999999999", "100000000000000000"]).prop_map(String::from),
         25 => prop::sample::select(vec![".", ".", ".", "_"]).prop_map(String::from),
         12 => (0usize..5, any::<u32>()).prop_map(|(i, m)| apply_case(MODIFIERS[i], if m % 3 == 0 { m } else { 0 })),
         10 => (0u8..26, any::<bool>()).prop_map(|(i, up)| {
@@ -51,6 +52,8 @@ pub enum Edit {
     Remove(u16),
     FlipCase(u16),
     BumpNb(u8),
+    /// change the last digit of a numeric token (same length, neighbouring value)
+    TweakNumber(u16, u8),
 }
 
 pub fn edit() -> BoxedStrategy<Edit> {
@@ -62,6 +65,7 @@ pub fn edit() -> BoxedStrategy<Edit> {
         2 => any::<u16>().prop_map(Edit::Remove),
         2 => any::<u16>().prop_map(Edit::FlipCase),
         2 => (0u8..4).prop_map(Edit::BumpNb),
+        3 => (any::<u16>(), 1u8..10).prop_map(|(i, d)| Edit::TweakNumber(i, d)),
     ]
     .boxed()
 }
@@ -101,6 +105,17 @@ pub fn apply_edit(v: &mut Vec<String>, e: &Edit) {
             }
         }
         Edit::BumpNb(n) => v.push(format!("nb{}", n)),
+        Edit::TweakNumber(i, d) => {
+            let nums: Vec<usize> =
+                v.iter().enumerate().filter(|(_, t)| !t.is_empty() && t.bytes().all(|b| b.is_ascii_digit())).map(|(k, _)| k).collect();
+            if !nums.is_empty() {
+                let k = nums[idx(*i, nums.len())];
+                let mut bytes = v[k].clone().into_bytes();
+                let last = bytes.len() - 1;
+                bytes[last] = b'0' + ((bytes[last] - b'0') + *d) % 10;
+                v[k] = String::from_utf8(bytes).unwrap();
+            }
+        }
     }
 }
 
@@ -112,7 +127,9 @@ pub fn render(v: &[String], cap: usize) -> String {
 
 /// correlated pair (A, B): B is A after 0..=3 edits
 pub fn pair(max_tokens: usize) -> BoxedStrategy<(String, String)> {
-    (tokens(max_tokens), prop::collection::vec(edit(), 0..=3))
+    // one pair in twenty is long (a shared prefix of dozens of components)
+    let toks = prop_oneof![19 => tokens(max_tokens), 1 => prop::collection::vec(token(), 20..=70).boxed()];
+    (toks, prop::collection::vec(edit(), 0..=3))
         .prop_map(|(a, edits)| {
             let mut b = a.clone();
             for e in &edits {
